@@ -217,6 +217,39 @@ def taken_over(run):
     return out
 
 
+BASE_REQS = {}
+
+
+def request_multiset(run):
+    """(function, payload) -> how often it was requested"""
+    c = {}
+    for fn, rs in run.requests.items():
+        for r in rs:
+            k = (fn, json.dumps(mask_cause(r["payload"]), sort_keys=True, default=repr))       # (Cause texts quote history event ids, which a restart may renumber)
+            c[k] = c.get(k, 0) + 1
+    return c
+
+
+def map_batch_relaunched(run):
+    """The listed batch finding, read off the broker log: the event that re-enters a Map state for its next MaxConcurrency batch (State.Name = the Map,
+    innermost Branch entry with a Range and no Index) was published before the crash and is published AGAIN, for the same Range, after it."""
+    w = run.world
+    crash_step = w.crashes[0]["step"] if w.crashes else None
+    if crash_step is None:
+        return False
+    before, after = set(), set()
+    for r in w.broker.oplog:
+        if r["op"] == "basic_publish" and (r["conn"] or "").startswith("engine:") and r.get("exchange") == "" and (r.get("routing_key") or "").startswith(EVENTQ):
+            try:
+                st = json.loads(r["body"])["context"]["State"]
+                br = (st.get("Branch") or [])[-1]
+            except Exception:
+                continue
+            if br.get("Range") and br.get("Index") is None:
+                (before if r["step"] <= crash_step else after).add((st.get("Name"), br["Range"], len(st["Branch"])))
+    return bool(before & after)
+
+
 def C_base(cid):
     for suf in (".waitForTaskToken", ".invoke"):
         if cid and cid.endswith(suf):
@@ -239,6 +272,7 @@ def run(ctx):
             base = S.execute(scn, seed=ctx.seed)
             try:
                 base_sig, n_steps = signature(base), len(base.world.steps)
+                BASE_REQS[(name, store)] = request_multiset(base)
                 n_ops = sum(1 for r in base.world.broker.oplog if (r["conn"] or "").startswith("engine:") and r["op"] in ("basic_publish", "basic_ack")
                             and r["step"] > 0)
                 base_ok = not base.error and all(v[0] in ("SUCCEEDED", "FAILED") for v in base_sig.values())
@@ -307,6 +341,14 @@ def between(ctx, scn, name, store, k, s, base_sig):
         dup = {c: n for c, n in seen.items() if n > 1}
         if dup:
             ctx.violation("task-requested-again-after-restart", wit(dict(duplicates=dup)), None)
+        # ... and the same invocation (function, payload) under a NEW correlation id: more requests than the crash-free run makes
+        base_reqs = BASE_REQS.get((name, store))
+        if base_reqs is not None and sig == base_sig and not dup:
+            more = {"%s(%s)" % (fn, p[:80]): [n, base_reqs.get((fn, p), 0)] for (fn, p), n in request_multiset(run).items() if n > base_reqs.get((fn, p), 0)}
+            ctx.count("request_multisets_compared")
+            if more:
+                ctx.violation("task-requested-again-after-restart", wit(dict(requested_more_often_than_without_the_crash=more)),
+                              "map-batch-relaunched-after-restart" if map_batch_relaunched(run) else None)
         for arn in getattr(run, "never_terminated", []) or []:
             ctx.violation("execution-never-terminates-after-crash", wit(dict(arn=arn)), classify_between(run, base_sig, sig))
         if ctx.counters["evaluations"] % 97 == 1:
